@@ -12,11 +12,11 @@ NA = {
 # id -> (engine, level, design_ref, level text, level note, technique)
 CHECKS = {
     "C01": ("ring", "exploration", "6 C01",
-            "Seeded search over ring configurations x poll schedules x join orders (no injected fault): 2..5 real FdlActiveStations on a byte-accurate exact-time bus; every transmission is judged by the token/authority monitor R2 (overlap, 33/11 bit idle times with 1 us tolerance, authority to transmit, PHY contract, R1 cross-decode). Sampling, not enumeration: a clean batch is evidence, not proof.",
-            "Trusted: the bus/PHY stub, the reference codec R1 and the authority monitor; reaction-time assumption of DESIGN 5.1 (3P+44bit+2us<=Tslot); cold start together / join at a telegram boundary (DESIGN 5.2, 5.3).",
+            "Seeded search over ring configurations (incl. HSA 126 with a station at 125) x poll schedules x join orders, graceful leaves and re-joins of the same station object (set_offline then set_online), no injected fault: 2..5 real FdlActiveStations on a byte-accurate exact-time bus; every transmission is judged by the token/authority monitor R2 (overlap, 33/11 bit idle times with 1 us tolerance, authority to transmit, PHY contract, R1 cross-decode). Sampling, not enumeration: a clean batch is evidence, not proof.",
+            "Trusted: the bus/PHY stub, the reference codec R1 and the authority monitor; reaction-time assumption of DESIGN 5.1 (3P+44bit+2us<=Tslot); cold start together / join at a telegram boundary (DESIGN 5.2, 5.3); the un-synchronised claim race (a station going online on a bus that has just fallen silent) is recognised and excluded as the property says. Thorough tier: a quarter of the runs also against profirust built without debug assertions / overflow checks.",
             "deterministic simulation (discrete-event, seeded schedules) with a bus-trace authority monitor"),
     "C02": ("ring", "exploration", "6 C02",
-            "Seeded search over station sets (incl. HSA-1, TS-1, address 0, two-station rings), cold starts, staged joins and graceful leaves: by T0+B_conv every online station must be in the ring with LAS = online set and cyclic neighbours as NS/PS; from then on the same is checked after every poll and every token pass must follow ascending cyclic order for >= G+H+3 rotations.",
+            "Seeded search over station sets (incl. HSA-1, TS-1, address 0, two-station rings), cold starts, staged joins, graceful leaves and re-joins; a panic of a station counts (it never joins): by T0+B_conv every online station must be in the ring with LAS = online set and cyclic neighbours as NS/PS; from then on the same is checked after every poll and every token pass must follow ascending cyclic order for >= G+H+3 rotations.",
             "Trusted: bus/PHY stub; convergence bound B_conv and stability window of DESIGN 5.4; observation through is_in_ring()/inspect_token_ring() and the bus trace only.",
             "deterministic simulation (seeded population plans and poll schedules) with a convergence-then-stability oracle"),
     "C03": ("dp", "fault_enumeration", "6 C03",
@@ -25,10 +25,10 @@ CHECKS = {
             "deterministic simulation with fault injection; bring-up automaton on the wire as oracle"),
     "C04": ("dp", "fault_enumeration", "6 C04",
             "Seeded search with process-image lengths 0..244, user writes to pi_q at arbitrary instants, every reply shape, losses: shadow copies of every image kept by the harness; every Data_Exchange request must carry the shadow pi_q of that instant, pi_i must equal the shadow after every poll, DataExchanged iff a well-formed reply from the addressed peripheral was delivered; panics count.",
-            "Trusted: shadow bookkeeping, R5, R1. Statuses RDL/RDH/NR are don't-care.",
+            "Trusted: shadow bookkeeping, R5, R1. RDL/RDH/NR count as error statuses (no update allowed).",
             "deterministic simulation with fault injection; shadow-copy (reference model) oracle"),
     "C07": ("dp", "fault_enumeration", "6 C07",
-            "Fault phase (storms of drops/bit flips/truncations/duplicates, power cycles, Byzantine replies, fault flags, user calls) then a fault-free phase with conforming reference slaves: bounded liveness - within K = 4*(max_retry+3)+8 DP cycles every healthy peripheral is_running() again (with Online and Configured reported if it had gone Offline), switched-off ones are !is_live().",
+            "Fault phase (storms of drops/bit flips/truncations/duplicates, power cycles, Byzantine replies, fault flags, user calls) then a fault-free phase with conforming reference slaves: bounded liveness - within K = 4*(max_retry+3)+8 DP cycles every healthy peripheral is_running() again AND its reference slave is in Data_Exchange locked by this master (with Online and Configured reported if it had gone Offline), switched-off ones are !is_live(); a panic of the master counts.",
             "Trusted: R5 as the definition of a conforming slave incl. FCB retry detection; healthy = powered, matching ident/config/lengths, max_tsdr within the margin of DESIGN 5.1/5.8, watchdog satisfiable by the bus cycle.",
             "deterministic simulation with fault injection; bounded-liveness oracle after faults stop"),
     "C08": ("dp", "fault_enumeration", "6 C08",
@@ -36,24 +36,24 @@ CHECKS = {
             "Trusted: R1, the call log. Replies the DP layer may reject are don't-care for toggle and retry count.",
             "deterministic simulation with fault injection; FCB/retry wire monitor"),
     "C14": ("dp", "fault_enumeration", "6 C14",
-            "0..4 peripherals in Vec / sparse fixed storage, responsive/silent/faulty mixes, second master and second application (token-hold interruptions, global control mid-cycle): between two cycle_completed reports turns follow slot order, one request plus retransmissions per turn, no peripheral twice; event life-cycle automaton vs. is_live()/is_running() after every poll; every event needs its cause in that poll; hangs and panics count.",
+            "0..4 peripherals in Vec / sparse fixed storage, responsive/silent/faulty mixes, second master and second application (token-hold interruptions, global control mid-cycle): between two cycle_completed reports turns follow slot order, one request plus retransmissions per turn, no peripheral twice; event life-cycle automaton vs. is_live()/is_running() after every poll; every event needs its cause in that poll; DataExchanged <=> is_running() turns/stays true; hangs and panics count.",
             "Trusted: call log, events taken after every poll. Silent turns are not observable on the wire.",
             "deterministic simulation with fault injection; cycle/event accounting oracle"),
     "C06": ("ring", "fault_enumeration", "6 C06",
-            "Ring worlds with a fault window: storms of dropped / bit-flipped / truncated / receiver-lost telegrams, collisions and noise, station crash (with and without restart, mid-transmission, right after a token to it), stalls, clock jumps, go-offline/online, constructed claim races, stale RX bytes. After the last disturbance the stations that are online must reach agreement within B_rec, crashed ones must be in nobody's LAS, no collision and cyclic token order afterwards, stability as in C02; a station that switches itself offline must have consumed two telegrams with its own source address.",
+            "Ring worlds with a fault window: storms of dropped / bit-flipped / truncated / receiver-lost telegrams, collisions and noise, station crash (with and without restart, mid-transmission, right after a token to it), stalls, clock jumps, go-offline/online, partitions (a station deaf or mute for a while), constructed claim races, stale RX bytes; panics count. After the last disturbance the stations that are online must reach agreement within B_rec, crashed ones must be in nobody's LAS, no collision and cyclic token order afterwards, stability as in C02; a station that switches itself offline must have consumed two telegrams with its own source address.",
             "Trusted: bus/PHY stub, fault injector, bound B_rec of DESIGN 5.4; DESIGN 5.6 for self-offline.",
             "deterministic simulation with fault injection; recovery-within-bound oracle"),
     "C13": ("ring", "exploration", "6 C13",
-            "Rings of 2..5 stations with applications of every appetite (never / sometimes / bursts / always), request kinds with and without reply, peers that answer or time out, TTR down to the builder minimum: every application request after the first of a token visit must start before previous token receipt + TTR (+ one poll period); in a stable ring the inter-receipt time of every station is bounded by TTR_max + one message cycle and GAP poll per station; a station with an always-ready application sends at least once per visit.",
+            "Rings of 2..5 stations with applications of every appetite (never / sometimes / bursts / always), request kinds with and without reply, peers that answer, time out or die in the middle of their answer, TTR down to the builder minimum: every application request after the first of a token visit must start before previous token receipt + TTR (+ one poll period); in a stable ring the inter-receipt time of every station is bounded by TTR_max + one message cycle and GAP poll per station; a token that does not come back at all violates the same bound; at most one GAP poll per token visit outside the scan that follows a claim; a station with an always-ready application sends at least once per visit.",
             "Trusted: wire times of token telegrams as the earliest reference of the station; the first visit after going online is exempt (no previous receipt); local clocks start at >= 0.",
             "deterministic simulation (seeded schedules and application programs); hold-time and rotation monitor"),
     "C15": ("ring", "exploration", "6 C15",
-            "Rings of 1..3 stations with 0..3 applications each (scripted traffic generators, LiveList), peers that answer correctly, late, with foreign addresses, with requests or tokens, or not at all: the call log of the FdlApplication callbacks is checked against the call model R7 (asked only while holding the token and with nothing outstanding; reply or time-out only to the requester, at most one; delivered reply admissible; round-robin order; nobody asked after all declined; no message cycle after the hold time except the first of a visit).",
+            "Rings of 1..3 stations with 0..3 applications each (scripted traffic generators, LiveList), peers that answer correctly, late, with foreign addresses, with requests or tokens, or not at all: the call log of the FdlApplication callbacks is checked against the call model R7 (asked only while holding the token - by the bus trace or by the station's own consumed token telegram - and with nothing outstanding; reply or time-out only to the requester, at most one; delivered reply admissible; round-robin order; nobody asked after all declined; no message cycle after the hold time except the first of a visit).",
             "Trusted: call-log probe around every application, token holder derived from token telegrams on the bus.",
             "deterministic simulation (seeded schedules and application programs); application call model as oracle"),
     "C11": ("adv", "fault_enumeration", "6 C11",
             "One real station against the semi-cooperative adversary node (plays predecessor, successor, stranger, invalid addresses, answers or ignores GAP polls and token passes, stays silent for sub-slot / slot / time-out lengths, sends garbage), plus rings of 3..5 real stations with crashes biased to the highest / lowest address: every transmission the station starts without being asked must be justified (token from the registered predecessor, second offer of a stranger, never while listening, or a claim after its silence time-out); token from the predecessor + silent bus => it transmits within 3P+33bit; after its own pass: retransmission no earlier than one slot time, at most two, then the silent successor is removed and the token goes to the next station of the list (or to itself); a heard successor is never removed.",
-            "Trusted: adversary stub, consumption log of the harness PHY (what the station consumed per poll), registered predecessor sampled before/after the consuming poll. The claim rule here ignores undecodable bytes (lenient; the exact rule is C01's).",
+            "Trusted: adversary stub, consumption log of the harness PHY (what the station consumed per poll), registered predecessor sampled before/after the consuming poll and, when several telegrams were consumed in one poll, recomputed telegram by telegram with the list-of-active-stations model R3. The claim rule here ignores undecodable bytes (lenient; the exact rule is C01's).",
             "deterministic simulation with an adversarial peer; hand-over model as oracle"),
     "C12": ("adv+ring", "fault_enumeration", "6 C12",
             "Rings of 1..4 real stations (staged joins, leaves, slaves that answer status polls inside the GAPs) and single stations against the (mostly polite) adversary: every own FDL status request must target the open interval (TS,NS) below HSA as it is at that moment; one per token visit except the complete contiguous scan after a claim; >= G token visits between sweeps; every GAP address polled within gap size + G + 3 visits; a ready/in-ring answer makes the replier the destination of the next token. Status replies of real stations: only to a request addressed to them that they consumed last, to the requester, within the slot time when the bus stays silent; 'ready' only after two identical witnessed rotations (R3 model over the consumed token passes) and only to the predecessor, 'in ring' only if in the ring before, not 'not ready' when in the ring or after three identical rotations when asked by the predecessor.",
@@ -64,7 +64,7 @@ CHECKS = {
             "Trusted: catch_unwind + panic hook, wall-clock watchdog of the driver. Not generated: set_passive/enter_stop/enter_clear (todo!()), parameter values the builder rejects, changing the application list while online (DESIGN 5.7). Known finding F12 (reset_address with a request in flight) is generated in the thorough tier only.",
             "deterministic simulation with fault injection; panic / hang / PHY-contract oracle"),
     "C10": ("rx", "fault_enumeration", "6 C10",
-            "Frames of every kind and length (incl. the non-canonical SD2 forms) are sent over a byte-timed link and damaged in flight (every single-bit error and byte substitution at each position class, two-bit errors, truncation, noise, structured 68 LE LEr 68 headers with random bodies, concatenation); the receiver is polled at random instants so that the decoder sees every prefix length. On every buffer the real Telegram::deserialize is compared with the maximally eager reference decoder R1: accept => same telegram and length; valid prefix => asks for more; invalid => reject, or ask for more only while shorter than the announced frame; verdicts never flip along a growing buffer; length inside the input; a single-byte-damaged data frame or SC is never a different telegram (delimiter substitution excepted, where the verdict must equal R1's); panics count.",
+            "Frames of every kind and length (incl. the non-canonical SD2 forms) are sent over a byte-timed link and damaged in flight (every single-bit error and byte substitution at each position class, two-bit errors, truncation, noise, structured 68 LE LEr 68 headers (LE at both ends of 4..249 and up to 255) with random bodies, concatenation); the receiver is polled at random instants so that the decoder sees every prefix length. On every buffer the real Telegram::deserialize is compared with the maximally eager reference decoder R1: accept => same telegram and length; valid prefix => asks for more; invalid => reject, or ask for more only while shorter than the announced frame; verdicts never flip along a growing buffer; length inside the input; a single-byte-damaged data frame or SC is never a different telegram (delimiter substitution excepted, where the verdict must equal R1's); panics count.",
             "Trusted: R1 (written from the frame format), the damage injector. Token telegrams carry no checksum and are exempt from the 'different telegram' clause.",
             "deterministic simulation with fault injection on a byte stream; reference decoder as oracle"),
     "C16": ("rx", "exploration", "6 C16",
@@ -72,7 +72,7 @@ CHECKS = {
             "Trusted: R1, the spy wrapper around receive_data (the provided trait methods run unmodified on top of it).",
             "deterministic simulation (seeded chunking and poll schedules); stream model as oracle"),
     "C18": ("scan", "fault_enumeration", "6 C18",
-            "One real station running LiveList and/or DpScanner (alone, with a second real master, with further applications) against a population of reference responders / DP slaves over addresses 0..125 that appear and disappear, with lost telegrams: only addresses 0..125 are probed, in sweep order; the event of every poll must equal what the live-set model R8 derives from the call log (an address is live iff it answered its last probe): Discovered/Found, Requery, Lost alternate per address; after the population has been quiet for two complete sweeps iter_stations() / the Found-minus-Lost set equals the answering stations (minus the scanner) with their ident numbers.",
+            "One real station running LiveList and/or DpScanner (alone, with a second real master, with further applications) against a population of reference responders (answering with OK or any other response status) / DP slaves over addresses 0..125 that appear and disappear, with lost telegrams: only addresses 0..125 are probed, in sweep order; the event of every poll must equal what the live-set model R8 derives from the call log (an address is live iff it answered its last probe): Discovered/Found, Requery, Lost alternate per address; after the population has been quiet for two complete sweeps iter_stations() / the Found-minus-Lost set equals the answering stations (minus the scanner) with their ident numbers.",
             "Trusted: reference responders, call-log probe. Faults are losses only (the quantifier); corruption can fabricate a short confirmation, see DESIGN section 7 observation O2.",
             "deterministic simulation with fault injection (lost telegrams, population histories); live-set model as oracle"),
 }
@@ -81,7 +81,7 @@ PENDING = ["C03", "C04", "C05", "C06", "C07", "C08", "C10", "C11", "C12", "C13",
 
 ENGINES = [
     {"name": "pbsim", "path": "sim/", "serves_properties": sorted(CHECKS.keys()),
-     "kind_free_text": "Rust crate: discrete-event simulator (exact-time shared bus, harness PHY implementing profirust's ProfibusPhy, poll/user processes, reference DP slaves, adversary node), explicit serialisable fault plans, reference models as oracles, seeded search in worker sub-processes, shrinker, replay files, known-findings filter, evidence writer. Links the real profirust from /repo as a cargo path dependency."},
+     "kind_free_text": "Rust crate: discrete-event simulator (exact-time shared bus, harness PHY implementing profirust's ProfibusPhy, poll/user processes, reference DP slaves, adversary node), explicit serialisable fault plans (wire faults, partitions, crashes, stalls, clock jumps, Byzantine peers), reference models as oracles, seeded search in worker sub-processes, shrinker, replay files, known-findings filter, evidence writer. Links the real profirust from /repo as a cargo path dependency."},
 ]
 
 
@@ -118,7 +118,7 @@ def main():
         "engines": ENGINES,
         "checks": checks,
         "not_applicable": na,
-        "notes": "Exit codes of every command: 0 = property held on everything explored (KNOWN-FINDING lines possible), 1 = violation (VIOLATION line + replay file under /verif/replays), 2 = harness error. VERIF_SEED selects the base seed (default 1). Repairs of genuine defects in /repo are the 'fix:' commits listed in known_findings.json as status fixed.",
+        "notes": "Exit codes of every command: 0 = property held on everything explored (KNOWN-FINDING lines possible), 1 = violation (VIOLATION line + replay file under /verif/replays), 2 = harness error. VERIF_SEED selects the base seed (default 1). The thorough tier of C01 C02 C05 C06 C11 C12 C13 C15 runs a second pass (a quarter of the runs) against profirust compiled without debug assertions and overflow checks (cargo profile noassert); its results are merged into the evidence under coverage.build_variants. Repairs of genuine defects in /repo are the 'fix:' commits listed in known_findings.json as status fixed.",
     }
     json.dump(m, open("/verif/MANIFEST.json", "w"), indent=1)
     print("wrote MANIFEST.json with", len(checks), "checks")
